@@ -113,6 +113,40 @@ fn generic<S: Scheme>(ctx: &mut Ctx, rng: &mut ChaCha20Rng) {
             }
         }
     }
+    // ---- degree beyond the key at `open`: the polynomial was committed under a larger key trimmed from the same
+    // parameters and is opened with a key that supports less (degree limit+1, limit+2; dense, low-order zeros, a single
+    // top monomial - for PST13 mixed monomials whose single exponents all stay within the limit)
+    if matches!(S::NAME, "marlin" | "sonic" | "ipa" | "pst13") && S::max_poly_degree(&tx.w.cfg) >= 2 {
+        let big_lim = S::max_poly_degree(&tx.w.cfg);
+        let mut small = tx.w.cfg.clone();
+        small.supported_degree = range(rng, 1, tx.w.cfg.supported_degree.saturating_sub(1).max(1));
+        small.enforced = None;
+        small.supported_hiding = small.supported_hiding.min(small.supported_degree);
+        let lim = S::max_poly_degree(&small);
+        if lim < big_lim {
+            if let Ok((ck_small, _vk)) = attempt(|| PcOf::<S>::trim(&tx.w.pp, small.supported_degree, small.supported_hiding, None)) {
+                for extra in [1usize, 2] {
+                    for shape in [Shape::Full, Shape::LowZeros, Shape::TopMonomial] {
+                        if lim + extra > big_lim {
+                            continue;
+                        }
+                        let p: LPoly<S> = LabeledPolynomial::new("big".into(), S::gen_poly(&tx.w.cfg, shape, lim + extra, rng), None, None);
+                        if p.degree() <= lim {
+                            continue;
+                        }
+                        let c = match commit::<S>(&tx.w.ck, std::slice::from_ref(&p), 2) {
+                            Ok(c) => c,
+                            Err(_) => continue,
+                        };
+                        let z = S::gen_point(&tx.w.cfg, rng);
+                        let mut r = crate::probe::mon_rng(5);
+                        let res = attempt(|| PcOf::<S>::open(&ck_small, [&p], c.comms.iter(), &z, &mut tx.sponge(), c.states.iter(), Some(&mut r)));
+                        refused(ctx, "degree-beyond-key", "open", json!({"cfg": tx.w.cfg.json(), "opening_key_supports": lim, "degree": p.degree(), "shape": format!("{:?}", shape)}), res);
+                    }
+                }
+            }
+        }
+    }
     // ---- hiding beyond the key, hiding without RNG
     if S::HIDING && S::NAME != "ipa" {
         let cfg = &tx.w.cfg;
